@@ -84,7 +84,7 @@ fn frame_bytes(payload: Vec<u8>, strip_cluster: bool) -> Result<Bytes, Fail> {
     Ok(out.freeze())
 }
 
-fn uni_frame(change: &ChangeV1, declared: Option<ClusterId>) -> Result<Bytes, Fail> {
+pub fn uni_frame(change: &ChangeV1, declared: Option<ClusterId>) -> Result<Bytes, Fail> {
     let payload = UniPayload::V1 { data: UniPayloadV1::Broadcast(BroadcastV1::Change(change.clone())), cluster_id: declared.unwrap_or(ClusterId(0x5a5a)) };
     let raw = payload.write_to_vec().map_err(|e| Fail::infra(format!("encode: {e}")))?;
     if declared.is_none() {
